@@ -63,6 +63,16 @@ def mutants_of(path):
             out.append((i, "const", f"{n.value}->{not n.value}", where))
         elif isinstance(n, ast.keyword) and n.arg in ("wrap", "pbc", "axis") and isinstance(n.value, ast.Constant) and isinstance(n.value.value, (bool, int)):
             out.append((i, "kw", f"{n.arg}={n.value.value} flipped", where))
+        elif isinstance(n, ast.Call) and isinstance(n.func, ast.Attribute) and n.func.attr == "copy" and not n.args and not n.keywords:
+            out.append((i, "uncopy", f"`{ast.unparse(n)[:40]}` without the copy", where))
+        elif isinstance(n, ast.Attribute) and n.attr == "T" and isinstance(n.ctx, ast.Load):
+            out.append((i, "unT", f"`{ast.unparse(n)[:40]}` without the transpose", where))
+        elif isinstance(n, ast.Call) and isinstance(n.func, ast.Attribute) and n.func.attr in ("array", "asarray") and len(n.args) == 1 and not n.keywords \
+                and isinstance(n.args[0], (ast.Name, ast.Attribute, ast.Call)):
+            out.append((i, "unarray", f"`{ast.unparse(n)[:40]}` aliased instead of converted", where))
+        elif isinstance(n, ast.Call) and len(n.args) >= 2 and not any(isinstance(a, ast.Starred) for a in n.args) and isinstance(n.func, ast.Attribute) \
+                and (ast.unparse(n.func).startswith(("matid.", "self.")) ) and all(isinstance(a, (ast.Name, ast.Attribute)) for a in n.args[:2]):
+            out.append((i, "swapargs", f"first two arguments of `{ast.unparse(n.func)[:40]}` exchanged", where))
     return src, out
 
 
@@ -95,6 +105,26 @@ def apply(path, idx, kind):
         tree = D().visit(tree)
     elif kind == "const":
         n.value = not n.value
+    elif kind in ("uncopy", "unarray", "unT"):
+        repl = n.func.value if kind == "uncopy" else n.args[0] if kind == "unarray" else n.value
+
+        class R(ast.NodeTransformer):
+            def generic_visit(self, node):
+                for f, v in ast.iter_fields(node):
+                    if isinstance(v, list):
+                        for j, x in enumerate(v):
+                            if x is n:
+                                v[j] = repl
+                            elif isinstance(x, ast.AST):
+                                self.generic_visit(x)
+                    elif v is n:
+                        setattr(node, f, repl)
+                    elif isinstance(v, ast.AST):
+                        self.generic_visit(v)
+                return node
+        tree = R().generic_visit(tree)
+    elif kind == "swapargs":
+        n.args[0], n.args[1] = n.args[1], n.args[0]
     elif kind == "kw":
         v = n.value.value
         n.value = ast.Constant((not v) if isinstance(v, bool) else (1 - v if v in (0, 1) else 0))
@@ -159,6 +189,7 @@ def main():
     ap.add_argument("--seed", type=int, default=1)
     ap.add_argument("--files", default="")
     ap.add_argument("--demos", type=int, default=3)
+    ap.add_argument("--kinds", default="")
     a = ap.parse_args()
     sys.path.insert(0, VERIF)
     from vstatic.main import CLAIMED
@@ -166,7 +197,7 @@ def main():
     allm = []
     for f in files:
         _, ms = mutants_of(f)
-        allm += [(f, i, k, d, w) for i, k, d, w in ms]
+        allm += [(f, i, k, d, w) for i, k, d, w in ms if not a.kinds or k in a.kinds.split(",")]
     random.Random(a.seed).shuffle(allm)
     allm = allm[:a.max]
     base = tempfile.mkdtemp(prefix="mutaudit-")
